@@ -241,7 +241,8 @@ func hashValue(h *maphash.Hash, v reflect.Value) {
 			writeUint(uint64(len(keys)))
 			slices.SortFunc(keys, func(x, y reflect.Value) int { return cmp.Compare(x.String(), y.String()) })
 			for _, k := range keys {
-				write(k)
+				// Keys are strings, whatever their type (a json.Number key is not a number).
+				h.WriteString(k.String())
 				write(v.MapIndex(k))
 			}
 		// Ints, uints and floats handled in jsonNumber, at top of function.
